@@ -1,3 +1,6 @@
+(* STATUS NOTE (third session): remarks of the form "NOT PROVED" in the comments below were written when the first theorems of this
+   file were stated; theorems added further down in this file supersede them.  The current status of the property is the row of
+   DESIGN.md section 14.4; the premises that remain are listed in DESIGN.md section 14.9. *)
 (* C07 — Explanations are valid proofs of the queried equation.
    PROVED: the explanation checker (Explain/Checker.v) is sound for `Deriv`: if it accepts a proof
    DAG — leaves are asserted equations with the recorded justification, inner steps are
